@@ -3,7 +3,7 @@ from . import core
 from .sinkcommon import run_sink_property
 
 RULE = ("Every sink call of real HTML parses and of real xml5ever parses (XML soup and structured namespace-rich documents); HTML:  (vocabulary-family enumerations of tag soup as documents and as fragments "
-        "under 34 context elements, both scripting settings; random tag soup) is logged by a monitoring sink and "
+        "under 46 context elements, both scripting settings; random tag soup) is logged by a monitoring sink and "
         "replayed by TLC on the abstract Dom specification, whose operations are enabled only under the documented "
         "contract: element-only operations on elements of the right kind, append of parent-less nodes, no insertion "
         "under itself/descendant (host-including), doctype at most once before any element, distinct attribute names.")
